@@ -99,8 +99,13 @@ func (sc *scen) execRawFund(o opDesc) (coqOp string, ok bool, errStr string, pay
 	rsig := "NoSig"
 	var rev types.V2FileContract
 	signed := false
-	if total.Cmp(types.MaxCurrency.Big()) <= 0 {
-		if r, _, rerr := proto4.ReviseForFundAccounts(contract.Revision, curOf(total)); rerr == nil {
+	signFor := total
+	if o.Arg == "wrap" {
+		// a dishonest renter signs for the total as 128-bit arithmetic wraps it
+		signFor = new(big.Int).Mod(total, new(big.Int).Lsh(big.NewInt(1), 128))
+	}
+	if signFor.Cmp(types.MaxCurrency.Big()) <= 0 {
+		if r, _, rerr := proto4.ReviseForFundAccounts(contract.Revision, curOf(signFor)); rerr == nil {
 			rev, signed = r, true
 			rev.RenterSignature = h.renter[o.C].SignHash(cs.ContractSigHash(rev))
 			req.RenterSignature = rev.RenterSignature
